@@ -32,6 +32,9 @@ type scriptFile struct {
 	delay   time.Duration
 }
 
+// wrappedEOF: script entry for a read error that wraps io.EOF (far away from the -3-n encodings of "n bytes + EOF")
+const wrappedEOF = -1 << 62
+
 type scriptedErr struct{}
 
 func (scriptedErr) Error() string { return "scripted read error" }
@@ -77,7 +80,7 @@ func (f *scriptFile) Read(p []byte) (int, error) {
 			return 0, io.EOF
 		case s == -2:
 			return 0, scriptedErr{}
-		case s == -1000:
+		case s == wrappedEOF:
 			return 0, fmt.Errorf("scripted read error: %w", io.EOF)
 		default:
 			n := take(-3 - s)
